@@ -181,6 +181,29 @@ CHECKS["C18"] = dict(
          "select 2.2; SemVer pre-releases / hex unjudged), Model/Options.lean (keyword-set threading), both sampled.",
     design_ref="DESIGN.md §6 C18")
 
+CHECKS["C16"] = dict(
+    technique="Lean 4 proof: interleaving semantics over shared-access steps of Transport.send / _connection_lost / disconnect / connection_made with an inductive invariant for every schedule (kernel exploration as cross-check); queue FIFO by induction over schedules; real methods on real threads under a deterministic cooperative scheduler, all interleavings replayed",
+    text="send_safe_general: one send against any number of loss / disconnect / reconnect threads under every schedule never "
+         "raises, calls write at most once, and returns without a write only if the connection it saw is gone; "
+         "queue_fifo / queue_exactly_once for any producers and schedule; pinned_send_raises documents the repaired race.",
+    note="Trusted: Lean kernel; Model/Transport.lean; atomic steps = the instrumented shared accesses (reads/writes of "
+         "Transport.protocol, protocol.transport, write/close, deque append/popleft) of the unmodified methods — real "
+         "pre-emptive scheduling below that granularity is not modelled; three-thread scenarios with more than 2500 "
+         "schedules are sampled in the correspondence (the theorems cover all). Adjacent races outside the statement "
+         "(disconnect vs loss, double reconnect, late transport=None) are reported with witnesses, not raised.",
+    design_ref="DESIGN.md §6 C16, §11.6")
+CHECKS["C20"] = dict(
+    technique="Lean 4 proof: supervisor event automaton per gateway class (callbacks exact, reconnect until success, quiet after stop) by induction over event sequences; watchdog arithmetic over a millisecond clock with explicit slack; real connect loops / TCPTransport.run / check_connection on fake devices and a simulated clock",
+    text="callbacks_exact, callbacks_alternate, reconnect_follows_loss, retry_until_success, quiet_after_stop for all event "
+         "sequences and all four classes (the last two hold since the two fix: commits; unfixed counterexample theorems kept); "
+         "watchdog_no_false_drop (threaded: latency <= rt - 80 ms; asyncio: rt >= 0.1 s and answer before the next timer), "
+         "watchdog_drop (silent link dropped within 2rt + G, G explicit), drop_redials.",
+    note="Partial by nature. Trusted: Lean kernel; Model/Supervisor.lean; events are atomic (interleavings are C16); pyserial / "
+         "asyncio transport contracts, thread scheduling, sockets and the clock are fakes with an exact simulated clock; the "
+         "slack g and the asyncio rt >= 0.1 s precondition are explicit in the theorems; 'about twice the timeout' for a link "
+         "that goes silent after an answer is up to ~3rt + 0.1 s on asyncio (stated, not raised).",
+    design_ref="DESIGN.md §6 C20, §11.6")
+
 NOT_YET = {
 }
 
